@@ -1100,6 +1100,7 @@ func (p *partition) handleReplicationRequest(msg *nats.Msg) {
 // receives a replication response from the leader. This response will contain
 // the leader epoch, leader HW, and (optionally) messages to replicate.
 func (p *partition) handleReplicationResponse(msg *nats.Msg) int {
+	verifGateStop("follower.response_received", p.srv.config.Clustering.ServerID, nil)
 	leaderEpoch, hw, data, err := proto.UnmarshalReplicationResponse(msg.Data)
 	if err != nil {
 		p.srv.logger.Warnf("Invalid replication response for partition %s: %s", p, err)
